@@ -38,7 +38,10 @@ pub fn eval(c: &FragCase) -> Outcome {
             }
         };
         if s.samples.len() != e.expect.len() {
-            o.class("count_mismatch_not_judged(C10)");
+            // C10's finding as well; for the timeline it means that some submitted decode-time difference / composition offset /
+            // sync flag has no entry in the segment (or an entry belongs to no submitted sample)
+            o.class("count_mismatch(also C10)");
+            o.fail("in_seg_delta", "in_seg_delta.sample_count", format!("segment {} describes {} samples, {} were submitted for it: their decode-time differences cannot all be in the run", k, s.samples.len(), e.expect.len()));
             return o;
         }
         let n = s.samples.len();
